@@ -14,7 +14,8 @@ from mako.ext.extract import MessageExtractor
 class BabelMakoExtractor(MessageExtractor):
     def __init__(self, keywords, comment_tags, options):
         self.keywords = keywords
-        self.options = options
+        # extract_nodes hands the (already decoded) code over as UTF-8
+        self.options = dict(options, encoding="utf-8")
         self.config = {
             "comment-tags": " ".join(comment_tags),
             "encoding": options.get(
